@@ -20,8 +20,8 @@ func (p *prop) Generate(rng *core.Rand, tier string, emit func(string)) {
 	nRec, nImp := 3000, 1800
 	switch tier {
 	case "thorough":
-		nSort, nSite, nMut, nGram, nRaw, nLeak = 300000, 20000, 70000, 30000, 20000, 2000
-		nRec, nImp = 35000, 20000
+		nSort, nSite, nMut, nGram, nRaw, nLeak = 300000, 20000, 55000, 25000, 15000, 2000
+		nRec, nImp = 28000, 16000
 	case "search":
 		nSort, nSite, nMut, nGram, nRaw, nLeak = 30000, 2000, 5000, 2500, 800, 150
 		nRec, nImp = 6000, 3000
